@@ -11,14 +11,13 @@
   * `class`/alignment facts that need no invariant hold for every interleaving (see C13).
 
   * `conc_bitfield_blocks_disjoint` — **every interleaving of any number of threads**, at the
-    bitfield level: targeted allocations and frees of held blocks of every order up to the huge
-    order (`Bitfield::toggle`: single-word update, narrow compare-exchange, multi-row with
-    roll-back) never hand out overlapping blocks, by the ownership invariant `ConcInv`
+    bitfield level: targeted allocations (`Bitfield::toggle`), searches (`set_first_zeros`,
+    `set_first_zero_rows`) and frees of held blocks of every order up to the huge order (single-word
+    update, narrow compare-exchange, multi-row with roll-back) never hand out overlapping blocks, by the ownership invariant `ConcInv`
     (`conc_invariant_all_schedules`).
 
-  PARTIAL: the all-interleavings statement for the *whole* allocator (bit search
-  `set_first_zeros`, huge-frame counters and markers, tree counters, reservations) is not a
-  theorem. That part is explored by the trace co-simulation: real threads under a deterministic scheduler
+  PARTIAL: the all-interleavings statement for the *whole* allocator (huge-frame counters and
+  markers, tree counters, reservations) is not a theorem. That part is explored by the trace co-simulation: real threads under a deterministic scheduler
   (preemption-bounded DFS + random schedules), every event replayed on the Lean interleaving
   semantics (`Th.step`), ownership oracle after every returned allocation and at quiescent ends.
 -/
@@ -116,9 +115,9 @@ theorem fresh_in_range (c : Cfg) (m : Mem) (inv : LowerInv c m) (f : Nat) (hfree
 
 
 /-- **Every interleaving, any number of threads (bitfield level).** Threads `k = 0, 1, 2, …` run
-    arbitrary command lists of targeted allocations `Bitfield::toggle(.., false)` (every order up
-    to the huge order, single word, narrow compare-exchange and multi-row with roll-back) and
-    frees of blocks they hold; the scheduler picks the thread of every single atomic access
+    arbitrary command lists of targeted allocations `Bitfield::toggle(.., false)`, searches
+    `Bitfield::set_first_zeros` (every order up to the huge order: single word, narrow
+    compare-exchange, multi-row with roll-back / `set_first_zero_rows`) and frees of blocks they hold; the scheduler picks the thread of every single atomic access
     (`sched`, unbounded). In every state reached: the frames held by different threads are
     disjoint, and a finished thread holds exactly the valid, pairwise disjoint blocks it reports
     (`HeldOk`). The proof is an ownership (rely/guarantee) invariant preserved by every atomic
